@@ -253,7 +253,13 @@ def settle(pid, verdicts, obs_files, tier, extra_samples=None):
             ks = kf["signature"]
             if kf["clause"] != clause or len(ks) != len(sig):
                 continue
-            if all(a == "*" or a == b or (isinstance(a, list) and b in a and not isinstance(b, list)) for a, b in zip(ks, sig)):
+            def m(a, b):
+                if a == "*" or a == b:
+                    return True
+                if isinstance(a, dict) and "subset_of" in a:            # b (a list standing for a set) within the given set
+                    return isinstance(b, list) and set(map(json.dumps, b)) <= set(map(json.dumps, a["subset_of"]))
+                return isinstance(a, list) and not isinstance(b, list) and b in a
+            if all(m(a, b) for a, b in zip(ks, sig)):
                 return kf
         return None
     groups, diverg, other = {}, {}, {}
